@@ -281,6 +281,16 @@ func (w *vfWireClient) close() {
 }
 
 func (w *vfWireClient) handleFor(slot int) string {
+	if slot == -4 {
+		// a guess: what the most recent open attempt would have been called by a counting server
+		n := 0
+		for i := 0; i < w.sent; i++ {
+			if k := w.ops[i].K; k == "open" || k == "opendir" {
+				n++
+			}
+		}
+		return fmt.Sprint(n)
+	}
 	if slot < 0 {
 		return fmt.Sprintf("bogus%d", -slot)
 	}
